@@ -71,7 +71,9 @@ class C08(Prop):
             edge = sem[1] == "add" and not reals and src.pick([False, True])
             return dict(kind="ast", sem=sem, route=src.pick(ROUTES), ast=gen_expr(src, sem_opts(sem, d, reals, edge), ("real", ())))
 
-        uniform = st.integers(0, 2**40).map(seeded)
+        from vf.core import robust_gen
+
+        uniform = st.integers(0, 2**40).map(robust_gen(seeded))
         return st.one_of(asts, uniform, uniform, uniform, uniform, uniform, einsum_cases())
 
     def describe(self, case):
